@@ -1,11 +1,12 @@
 """C18 -- random walks are stochastic and stationary; contagion is exact when deterministic.
 
 Random walk: connected hypergraphs on 0..N-1 (constructed connected, never
-filtered); the oracle is exact rational arithmetic (fractions) on the
+filtered; unweighted or weighted -- the stated law ignores weights); the oracle is exact rational arithmetic (fractions) on the
 definition K_ij = sum_{e ni i,j, i != j} (|e|-1) / sum_{e ni i} (|e|-1)^2.
 
 Contagion: any labels; hypergraphx draws from the *global* numpy RNG, which is
-seeded from the case.  Bounds / monotonicity are demanded for all rates; for
+seeded from the case.  Bounds / monotonicity are demanded for all rates (with
+mu = 0 a lower and an upper deterministic envelope for mixed rate pairs); for
 rates in {0, 1} the whole trajectory must equal a synchronous reference
 simulation that reads only the old state.
 """
@@ -22,8 +23,10 @@ from ..engine import Clause, Violation, require
 from ..common import with_history  # noqa: E402
 
 ASSUMPTIONS = [
-    "random walk: unweighted connected Hypergraph, nodes exactly 0..N-1 (N 2..8), hyperedge sizes "
-    "2..5 (the quantifier's domain; singletons, weights and other labels are not generated)",
+    "random walk: connected Hypergraph, nodes exactly 0..N-1 (N 2..8, mostly >= 4), hyperedge sizes "
+    "2..5 (the quantifier's domain; singletons and other labels are not generated); a third of the "
+    "inputs are weighted Hypergraphs with weights differing between hyperedges: the stated "
+    "transition law has no weights in it, so the oracle is the same",
     "transition oracle: exact fractions; zero diagonal is part of the definition (the stationary "
     "law sum_{e ni i}(|e|-1)^2 stated by the property holds only without self-transitions)",
     "float tolerances: K against the exact value rtol 1e-12 (integer sums divided once); stationary "
@@ -35,10 +38,17 @@ ASSUMPTIONS = [
     "0.1 in [0,1]; numpy and random global RNGs seeded from the case",
     "contagion, derived bound: with mu=0 the infected count never exceeds that of the deterministic "
     "run with beta=beta_D=1 from the same I_0 (monotone coupling of the documented process)",
+    "contagion, derived two-sided bounds for any infection rates with mu=0 (same coupling, argued "
+    "in check_contagion_bounds): infected count <= that of the deterministic run in which exactly "
+    "the channels with a positive rate fire, and >= that of the run in which exactly the rate-1 "
+    "channels fire; relies on numpy.random.random() in [0,1) compared with `< rate`",
     "contagion exact regimes: rates in {0,1}: numpy.random.random() lies in [0,1), so a rate-1 event "
     "always fires and a rate-0 event never does",
-    "not checked: that I_0 is left unmodified, distributional correctness for rates strictly inside "
-    "(0,1), weighted hypergraphs in the walk, disconnected inputs (the library asserts)",
+    "the caller's start density array and I_0 dictionary are compared before/after the call and a "
+    "modification is only recorded as a label ('start array modified', 'I_0 dict modified'): the "
+    "property is silent about it",
+    "not checked: distributional correctness for rates strictly inside (0,1), disconnected inputs "
+    "(the library asserts)",
 ]
 
 # --------------------------------------------------------------------------
@@ -47,7 +57,8 @@ ASSUMPTIONS = [
 
 @st.composite
 def connected_hypergraphs(draw, tier):
-    n = draw(st.integers(2, 8))
+    # (an integer range is sampled mostly at its ends: 30% of the cases had n = 2)
+    n = draw(st.sampled_from([5, 4, 6, 7, 3, 8, 5, 6, 2]))
     perm = draw(st.permutations(list(range(n))))
     comp, rest = [perm[0]], list(perm[1:])
     edges = []
@@ -67,8 +78,13 @@ def connected_hypergraphs(draw, tier):
             seen.add(key)
             out.append(list(e))
     order = draw(st.permutations(list(range(len(out)))))
+    # the stated transition law has no weights in it: a weighted Hypergraph (weights that differ
+    # from hyperedge to hyperedge) must give the same matrix
+    weights = None
+    if draw(st.integers(0, 2)) == 0:
+        weights = [draw(st.sampled_from([2, 3, 0.5, 7, 1])) for _ in out]
     return {"n": n, "edges": [out[i] for i in order], "node_seed": draw(st.integers(0, 999)),
-            "nodes_first": draw(st.booleans())}
+            "nodes_first": draw(st.booleans()), "weights": weights}
 
 
 def _warmup_rw(h):
@@ -79,11 +95,15 @@ def _warmup_rw(h):
 @with_history(warmup=_warmup_rw)
 def build_rw(hc):
     from hypergraphx import Hypergraph
-    h = Hypergraph()
+    weights = hc.get("weights")
+    h = Hypergraph(weighted=weights is not None)
     nodes = permuted(range(hc["n"]), hc["node_seed"])
     if hc["nodes_first"]:
         h.add_nodes(nodes)
-    h.add_edges([tuple(e) for e in hc["edges"]])
+    if weights is not None:
+        h.add_edges([tuple(e) for e in hc["edges"]], weights=list(weights))
+    else:
+        h.add_edges([tuple(e) for e in hc["edges"]])
     if not hc["nodes_first"]:
         h.add_nodes(nodes)
     return h
@@ -109,6 +129,8 @@ def exact_K(hc):
 def classify_rw(hc, ctx):
     sizes = {len(e) for e in hc["edges"]}
     ctx.label("n:%d" % hc["n"], "distinct_sizes:%d" % min(len(sizes), 3))
+    if hc.get("weights") is not None:
+        ctx.label("weighted" if len(set(hc["weights"])) > 1 else "weighted_uniform")
     if max(sizes) >= 3:
         ctx.label("has_size>=3")
     ctx.nontrivial(hc["n"] >= 3 and len(sizes) >= 2)
@@ -206,7 +228,11 @@ def check_density(case, ctx):
         ctx.label("start:int_dtype")
     else:
         start = s0.copy()
-    out = random_walk_density(build_rw(hc), start, T)
+    handed = start.copy()
+    out = random_walk_density(build_rw(hc), handed, T)
+    if not np.array_equal(handed, start):
+        # the property is silent about the caller's array: an observation, not a verdict
+        ctx.label("start array modified")
     require(isinstance(out, (list, tuple)) and len(out) == T + 1,
             lambda: "random_walk_density(time=%d) returned %d vectors, expected %d" % (T, len(out), T + 1),
             key="length")
@@ -285,10 +311,16 @@ def contagion_cases(draw, tier, deterministic):
     if deterministic:
         rates = [float(r) for r in draw(st.sampled_from(REGIMES))]
     else:
-        kind = draw(st.sampled_from(["any", "mu0", "no_infection"]))
+        kind = draw(st.sampled_from(["any", "mu0", "mu0_mixed", "no_infection"]))
         rates = [draw(st.sampled_from(RATES)) for _ in range(3)]
         if kind == "mu0":
             rates[2] = 0.0
+        elif kind == "mu0_mixed":
+            # one infection channel deterministic (never / always), the other one random
+            rates[2] = 0.0
+            which = draw(st.integers(0, 1))
+            rates[which] = draw(st.sampled_from([0.0, 0.0, 1.0]))
+            rates[1 - which] = draw(st.sampled_from([0.1, 0.3, 0.5, 0.7, 0.9]))
         elif kind == "no_infection":
             rates[0] = rates[1] = 0.0
     T = draw(st.sampled_from(list(range(1, 13))))
@@ -373,12 +405,16 @@ def reference(case, beta, beta_D, mu, sequential=None):
     return traj, tri_event
 
 
-def run_contagion(case):
+def run_contagion(case, ctx=None):
     from hypergraphx.dynamics.contagion import simplicial_contagion
     h, I0 = build_contagion(case)
     random.seed(case["seed"])
     np.random.seed(case["seed"])
-    out = simplicial_contagion(h, dict(I0), case["T"], case["beta"], case["beta_D"], case["mu"])
+    handed = dict(I0)
+    out = simplicial_contagion(h, handed, case["T"], case["beta"], case["beta_D"], case["mu"])
+    if ctx is not None and handed != I0:
+        # the property is silent about the caller's dictionary: an observation, not a verdict
+        ctx.label("I_0 dict modified")
     out = np.asarray(out, dtype=float).reshape(-1)
     return out
 
@@ -410,7 +446,7 @@ def common_contagion(case, out, ctx):
 
 def check_contagion_bounds(case, ctx):
     n = len(case["U"]["labels"])
-    out = run_contagion(case)
+    out = run_contagion(case, ctx)
     common_contagion(case, out, ctx)
     d = np.diff(out)
     if case["mu"] == 0:
@@ -422,6 +458,38 @@ def check_contagion_bounds(case, ctx):
         require(not over, lambda: "simplicial_contagion (mu=0) infects %r nodes at step %d, more than the %d "
                 "reachable when every pair and triangle infection fires; %s"
                 % (float(out[over[0]] * n), over[0], env[over[0]], describe(case)), key="envelope")
+        # Two-sided bounds for any rate pair (mu = 0), from the same coupling.  An infection
+        # attempt is `numpy.random.random() < rate` with random() in [0, 1): it never succeeds
+        # at rate 0 and always succeeds at rate 1.  With mu = 0 nobody recovers, so the infected
+        # set only grows.  By induction over the steps, (a) the infected set is contained in
+        # that of the run in which every channel with a positive rate always fires (a node
+        # newly infected at step t was infected through a pair / triangle whose other members
+        # were infected at t-1, hence infected in the larger run too, through a channel of
+        # positive rate, which fires there), and (b) it contains that of the run in which only
+        # the rate-1 channels fire and the others never do (a node infected there at step t
+        # is reached by a rate-1 channel from nodes that are infected in the observed run as
+        # well; if it is still susceptible the library attempts that channel -- the pair loop
+        # before the triangles, a success in the first only skips the second -- and the
+        # attempt succeeds with certainty).  Counts are compared with 1e-9 slack on n*fraction.
+        hi, _ = reference(case, 1 if case["beta"] > 0 else 0, 1 if case["beta_D"] > 0 else 0, 0)
+        lo, _ = reference(case, 1 if case["beta"] == 1 else 0, 1 if case["beta_D"] == 1 else 0, 0)
+        over = [t for t in range(case["T"]) if out[t] * n > hi[t] + 1e-9]
+        require(not over, lambda: "simplicial_contagion (mu=0) infects %r nodes at step %d, more than the %d "
+                "reachable when every infection with a positive rate fires (a rate-0 infection can "
+                "never fire); upper counts %r, observed %r; %s"
+                % (float(out[over[0]] * n), over[0], hi[over[0]], hi,
+                   [round(x * n, 6) for x in out.tolist()], describe(case)), key="upper")
+        under = [t for t in range(case["T"]) if out[t] * n < lo[t] - 1e-9]
+        require(not under, lambda: "simplicial_contagion (mu=0) infects %r nodes at step %d, fewer than the %d "
+                "infected when only the rate-1 infections fire (a rate-1 infection always fires); "
+                "lower counts %r, observed %r; %s"
+                % (float(out[under[0]] * n), under[0], lo[under[0]], lo,
+                   [round(x * n, 6) for x in out.tolist()], describe(case)), key="lower")
+        mixed = any(0 < r < 1 for r in (case["beta"], case["beta_D"]))
+        if mixed and hi != env:
+            ctx.label("mixed:upper_bound_below_full_envelope")
+        if mixed and len(set(lo)) >= 2:
+            ctx.label("mixed:lower_bound_not_constant")
     if case["beta"] == 0 and case["beta_D"] == 0:
         ctx.label("regime:no_infection")
         require(bool((d <= 1e-12).all()), lambda: "simplicial_contagion increases with beta=beta_D=0: %r; %s"
@@ -434,7 +502,7 @@ def check_contagion_bounds(case, ctx):
 
 def check_contagion_exact(case, ctx):
     n = len(case["U"]["labels"])
-    out = run_contagion(case)
+    out = run_contagion(case, ctx)
     common_contagion(case, out, ctx)
     b, bd, mu = int(case["beta"]), int(case["beta_D"]), int(case["mu"])
     ctx.label("regime:%d%d%d" % (b, bd, mu))
